@@ -1725,6 +1725,28 @@ class UTPM(Ring, RawAlgorithmsMixIn):
         return out
 
     @classmethod
+    def pb_tril(cls, ybar, x, y, k=0, out = None):
+        if out is None:
+            xbar = x.zeros_like()
+
+        else:
+            xbar, = out
+
+        xbar += cls.tril(ybar, k=k)
+        return xbar
+
+    @classmethod
+    def pb_triu(cls, ybar, x, y, k=0, out = None):
+        if out is None:
+            xbar = x.zeros_like()
+
+        else:
+            xbar, = out
+
+        xbar += cls.triu(ybar, k=k)
+        return xbar
+
+    @classmethod
     def init_jacobian(cls, x, dtype=None):
         """ initializes this UTPM instance to compute the Jacobian,
 
